@@ -253,6 +253,16 @@ TECH_EXTRA["C14"] = TECH_EXTRA.get("C14", "") + "; overlap of a local Send with 
 TECH_EXTRA["C04"] = TECH_EXTRA.get("C04", "") + "; session events (end-to-end key setup) injected at message boundaries by the wire scheduler; known-findings matcher on the failing history"
 ENGINE_EXTRA["C17"] = ENGINE_EXTRA.get("C17", "") + " + E1 vmesh (fan-out copies)"
 
+EXTRA8 = {
+ "C05": " A lost intact frame is judged by bounded progress: ten further frames sent one at a time must arrive, or the link be closed.",
+ "C06": " The victim pings the router and gets its answer among the control messages between refusal and retry.",
+ "C11": " Country prefixes that lie inside their region (nested clean runs).",
+ "C15": " Exchange-key clean-up as a key-setup event.",
+ "C16": " Connections that die silently (writes refused, reads keep waiting): a link that keeps such a connection is reported; registry readers running next to the events.",
+}
+for k, v in EXTRA8.items():
+    EXTRA[k] = EXTRA.get(k, "") + v
+
 NOT_YET = "check not implemented yet in this revision of /verif (work in progress; see DESIGN.md §8)"
 
 def main():
